@@ -1358,6 +1358,19 @@ class Check:
         tr = f" trivia={tb.get('trivia')}" if tb.get("trivia") else ""
         return f"mode={plan.get('mode')}{tr} text={plan['text']!r} steps=[{steps}] rules: {rules} {atoms_s}"
 
+    def vacuity(self, acc):
+        out = []
+        if acc.get("mode_runs"):
+            if not acc.get("events"):
+                out.append("vacuous run: the rule taps recorded no primitive event (O1 checked nothing)")
+            if not acc.get("structure_checked"):
+                out.append("vacuous run: no normal-form rule application was judged (O4 checked nothing)")
+            if not acc.get("restores_seen"):
+                out.append("vacuous run: the bracket shadow saw no restore() (O3 checked nothing)")
+            if acc.get("structure_skipped", 0) > 3 * max(1, acc.get("structure_checked", 0)):
+                out.append("vacuous run: more than three quarters of the normal-form rule applications were skipped")
+        return out
+
     def assumptions(self):
         return [
             "O4 judges the backtracking clause only on composite rules in normal form (one operator over rule references), where operand results are observable at rule boundaries in all four modes; operators nested inline inside one rule body are covered by O1-O3 and by the enclosing normal-form rule only",
